@@ -7,4 +7,4 @@ wt=/tmp/sp_$$; git -C /repo worktree add -q --detach $wt HEAD || exit 3
 trap 'git -C /repo worktree remove --force $wt >/dev/null 2>&1' EXIT
 ( cd $wt && git apply $patch ) || { echo "PATCH FAILS"; exit 3; }
 ( cd $wt && go build ./... ) || { echo "BUILD FAILS"; exit 3; }
-for p in "$@"; do ( /verif/bin/dhtlint -repo $wt -property $p -tier quick -no-evidence 2>&1 | grep -E "^(VIOLATION|BROKEN)|^C[0-9][0-9] " | sed -e "s#replay=[^ ]* ##" | cut -c1-${W:-330} ) & done; wait
+for p in "$@"; do ( ${DHTLINT:-/verif/bin/dhtlint} -repo $wt -property $p -tier quick -no-evidence 2>&1 | grep -E "^(VIOLATION|BROKEN)|^C[0-9][0-9] " | sed -e "s#replay=[^ ]* ##" | cut -c1-${W:-330} ) & done; wait
